@@ -306,6 +306,13 @@ fn run_batch(prop: &str, master: u64, jobs: &[(Sim, usize)], workers: usize, kno
                                 std::process::exit(2);
                             }
                         };
+                        if std::env::var_os("RSIM_SLOW_RUNS").is_some() {
+                            // diagnostics only (never part of a registered command): where the wall time goes
+                            let ms = started[w].lock().unwrap().elapsed().as_millis();
+                            if ms > 3000 {
+                                eprintln!("slow run: {} run {i} seed {} took {ms} ms", sim.name(), res.seed);
+                            }
+                        }
                         if keep_hashes || i < DETERMINISM_SAMPLE {
                             local_hashes.push((i, res.hash.clone()));
                         }
@@ -768,7 +775,13 @@ fn cmd_probe(args: &Args) -> i32 {
                 if i >= to {
                     break;
                 }
-                let _ = std::panic::catch_unwind(std::panic::AssertUnwindSafe(|| run_one(sim, &prop, i, run_seed(master, sim, i), None, false)));
+                let trace = args.get("trace").is_some();
+                let res = std::panic::catch_unwind(std::panic::AssertUnwindSafe(|| run_one(sim, &prop, i, run_seed(master, sim, i), None, trace)));
+                if let (true, Ok(r)) = (trace, res) {
+                    for e in r.events.iter().take(2000000) {
+                        println!("{e}");
+                    }
+                }
             });
         }
     });
